@@ -11,14 +11,17 @@
 //!   Every record is followed by the sorted list (length-prefixed) of serials whose
 //!   destructor ran during the operation (0 for the zero-sized type Z).
 //!   Records: 0 (empty slot) | 1 ser len | 2 b | 3 val ser hid (cast ok) | 4 obs (cast failed,
-//!   returned message) | 5 val ser | 6 | 7 ser | 8 | 9 1 (clone panicked) | 10 | 11 len | 12 | 13 obs
+//!   returned message) | 5 val ser | 6 | 7 ser | 8 | 9 1 (clone panicked) | 10 | 11 len charged | 12 | 13 obs
 //!   with obs = tag val ser body_len msg_len header_id;  final record 14 serials_drawn drops.
+//!   `charged` is ChannelMetrics::calculate_busy of the message at 8 Gbit/s in ns (= bytes charged).
 //!
 //! `1 decl` — `des_macros_core::message_body::derive_impl` on a generated declaration; prints the
 //!   canonical form of its token output (coq/Body/Derive.v `enc_output`).
 //!
 //! `2 fam k l*` — `byte_len()` of a value of one of six `#[derive(MessageBody)]` types compiled in.
+use des::net::channel::{ChannelDropBehaviour, ChannelMetrics};
 use des::net::message::{Body, Message};
+use des::time::Duration;
 use des::prelude::MessageBody;
 use std::any::Any;
 use std::cell::{Cell, RefCell};
@@ -456,7 +459,22 @@ fn run_body(nums: &[u64]) -> Vec<u64> {
             },
             9 => match slots[s].as_ref() {
                 None => out.push(0),
-                Some(m) => out.extend([11, m.length() as u64]),
+                Some(m) => {
+                    // the size a channel charges: busy time at 8 Gbit/s is one nanosecond per byte
+                    let mlen = m.length() as u64;
+                    let charged = if mlen < (1 << 41) {
+                        let metrics = ChannelMetrics::new(
+                            8_000_000_000,
+                            Duration::ZERO,
+                            Duration::ZERO,
+                            ChannelDropBehaviour::Drop,
+                        );
+                        metrics.calculate_busy(m).as_nanos() as u64
+                    } else {
+                        mlen
+                    };
+                    out.extend([11, mlen, charged]);
+                }
             },
             10 => {
                 if held.is_empty() {
@@ -851,5 +869,6 @@ fn run_family(nums: &[u64]) -> Vec<u64> {
         }
         .byte_len(),
     };
-    vec![len as u64]
+    // tagged, so that a length of 666 is not mistaken for the escaped-panic marker
+    vec![15, len as u64]
 }
